@@ -133,6 +133,7 @@ impl Tester<'_> {
                     ("std_cmds", self.iface.std_cmds.into()),
                     ("err_cmds", self.iface.err_cmds.into()),
                     ("input", J::s(esc(&input))),
+                    ("input_hex", J::s(super::hex(&input))),
                     ("matcher_says", J::s(format!("{:?}", resolved))),
                     ("observed", J::strs(got.show())),
                 ]),
